@@ -181,20 +181,26 @@ func (c *c09Case) joinAll() {
 	c.s.Note("JC")
 	c.tp.JoinAll()
 	c.s.Note("JR")
-	c.joined = true
-	c.ja = "ok"
+	ja := "ok"
 	// the snapshot JoinAll left its loop with (tasks may be added concurrently with the return)
 	c.s.mu.Lock()
 	js := c.s.lastWS[c.s.labels[c09Goid()]]
 	c.s.mu.Unlock()
 	if js[0] != 0 || js[2] != 0 {
-		c.ja = "bad"
+		ja = "bad"
 	}
 	for _, id := range before {
 		if atomic.LoadInt64(&c.end[id]) == 0 {
-			c.ja = "bad"
+			ja = "bad"
 		}
 	}
+	// JoinAll may run in its own goroutine next to SetWorkerCount calls of the case goroutine
+	c.mu.Lock()
+	c.joined = true
+	if c.ja != "bad" {
+		c.ja = ja
+	}
+	c.mu.Unlock()
 }
 
 func (c *c09Case) quiesce() bool {
@@ -439,8 +445,9 @@ func c09RunDirected(name string, W int) string {
 		<-d
 	case "joinall-vs-resize":
 		// SetWorkerCount while a JoinAll is being carried out: the worker has found the queue empty on the
-		// exit-when-drained path (held at pool.get.empty) when the pool is resized to W+1; W+1 workers must
-		// result (the worker is still counted on). Afterwards the pool is emptied so that JoinAll returns.
+		// exit-when-drained path (held at pool.get.empty) when the pool is resized to W+1. The worker is still
+		// counted on (no under-shoot at that moment); JoinAll keeps its request up, so it is decided last:
+		// it returns and leaves no worker.
 		c.setWorkers(W, false)
 		c.quiesce()
 		r := s.AddRule("w*", "pool.get.empty", W)
@@ -452,13 +459,7 @@ func c09RunDirected(name string, W int) string {
 		}
 		c.setWorkers(W+1, false)
 		s.Release(r)
-		c.quiesce()
-		if n := len(c.tp.State()["TotalWorkerThreads"].([]uint64)); n != W+1 {
-			c.rsMid = true
-		}
-		c.setWorkers(0, true)
-		<-jd
-		c.joined = false
+		c.awaitJoin(jd)
 	case "joinall-vs-setworkercount":
 		// a SetWorkerCount(n>0) overwrites the request of a JoinAll that is being carried out (its workers,
 		// woken by JoinAll, are held before their kill check): SOME order must win, JoinAll must return
@@ -571,8 +572,10 @@ func (c *c09Case) joinWithAdds(n int) {
 		c.quiesce()
 		c.setWorkers(0, true)
 	}
+	c.mu.Lock()
 	c.lastSet = -1
 	c.joined = true
+	c.mu.Unlock()
 }
 
 // awaitJoin waits for a JoinAll running in another goroutine. JoinAll polls, so "it does not return"
@@ -581,11 +584,19 @@ func (c *c09Case) joinWithAdds(n int) {
 func (c *c09Case) awaitJoin(jd chan struct{}) {
 	c.quiesce()
 	rounds := 0
-	for k := 0; k < 60 && rounds < 6; k++ {
+	last := c.s.snapshot()
+	for k := 0; k < 200 && rounds < 6; k++ {
 		select {
 		case <-jd:
 			return
 		case <-time.After(50 * time.Millisecond):
+		}
+		sn := c.s.snapshot()
+		// spinning = the workers sit in Wait and nothing but JoinAll's identical polls is recorded
+		if sn.events != last.events || sn.notWaiting != 0 || sn.liveWorkers == 0 {
+			rounds = 0
+			last = sn
+			continue
 		}
 		if c09Heartbeat(50 * time.Millisecond) {
 			rounds++
@@ -598,8 +609,10 @@ func (c *c09Case) awaitJoin(jd chan struct{}) {
 	}
 	c.setWorkers(0, true)
 	<-jd
+	c.mu.Lock()
 	c.ja = "bad" // JoinAll did not return although the pool was quiescent
 	c.lastSet = -1
+	c.mu.Unlock()
 }
 
 func (c *c09Case) runProg(prog string) {
